@@ -44,7 +44,19 @@ impl Concurrent<VirtualSystem> {
         F: Future<Output = ()>,
     {
         let mut task = pin!(task);
-        while poll!(&mut task).is_pending() {
+        loop {
+            // The process may have been terminated (e.g. by a signal sent from
+            // another process) while the task was not being polled. A
+            // terminated process must not run any further.
+            if let ProcessState::Halted(result) = self.inner.current_process().state()
+                && !result.is_stopped()
+            {
+                return;
+            }
+            if poll!(&mut task).is_ready() {
+                return;
+            }
+
             let state = self.inner.current_process().state();
             match state {
                 ProcessState::Running => {
